@@ -149,9 +149,10 @@ def run(ctx):
     if not ctx.quick:
         # vacuity: every witness reachable (separate small run; in the quick tier the first configuration records them)
         wconst = {"Locs": {"a", "b"}, "TokVs": {1, 2}, "Forces": {False}, "Peers": {1, 2},
-                  "Shapes": {"absent", "valid", "norack", "dup"}, "LocalLocs": {"a"}, "CtlDups": {False}}
-        rc.witnesses_reached("ControlRefresh", ctx.scratch, WITNESSES, init="InitBoth", next="NextOnce", constants=wconst)
-        ctx.note("vacuity_witnesses_reached", len(WITNESSES))
+                  "Shapes": {"absent", "valid", "norack", "dup"}, "LocalLocs": {"a"}, "CtlDups": {False}, "SameAddr": {2}}
+        rc.witnesses_reached("ControlRefresh", ctx.scratch, WITNESSES + ["Witness_SharedAddressRemoved"], init="InitBoth",
+                             next="NextOnce", constants=wconst)
+        ctx.note("vacuity_witnesses_reached", len(WITNESSES) + 1)
 
     # ---- exhaustive configurations: TLC (base case + inductive step), then every pair replayed
     total_edges = covered_edges = 0
